@@ -3,6 +3,8 @@ package main
 // Models for package net / net/textproto functions (UF + refinement, table 3).
 
 import (
+	"crypto/tls"
+	"crypto/x509"
 	"go/types"
 	"fmt"
 	"math"
@@ -764,5 +766,74 @@ func init() {
 		}
 		unsup("os.Expand on a string that may contain '$'")
 		return false
+	})
+}
+
+func init() {
+	// tls.X509KeyPair on concrete PEM input: the real function decides; the returned certificate
+	// carries the DER leaf so that x509.ParseCertificate (below) can be evaluated natively as well
+	reg("crypto/tls.X509KeyPair", func(e *Engine, st *State, c *callCtx) bool {
+		certPEM := e.toSMTString(st, e.snapshotBytes(st, c.args[0].(SliceVal)))
+		keyPEM := e.toSMTString(st, e.snapshotBytes(st, c.args[1].(SliceVal)))
+		if !certPEM.K || !keyPEM.K {
+			unsup("tls.X509KeyPair on symbolic input")
+		}
+		ct := c.fn.Signature.Results().At(0).Type()
+		cert, err := tls.X509KeyPair([]byte(certPEM.Str), []byte(keyPEM.Str))
+		zero := zeroValue(ct).(StructVal)
+		if err != nil {
+			c.ret(st, TupleVal{zero, e.newError(st, KStr(err.Error()))})
+			return true
+		}
+		// Certificate [][]byte: first field
+		var chain []Value
+		for _, der := range cert.Certificate {
+			cv := make([]*Term, len(der))
+			for i, b := range der {
+				cv[i] = KInt64(int64(b))
+			}
+			ln := KInt64(int64(len(der)))
+			id := st.newObj(SymArrVal{N: ln, Elem: types.Typ[types.Uint8], C: cv}, nil)
+			chain = append(chain, SliceVal{Obj: id, Off: KInt64(0), Len: ln, Cap: ln})
+		}
+		id := st.newObj(ArrayVal{E: chain}, nil)
+		n := KInt64(int64(len(chain)))
+		f := append([]Value(nil), zero.F...)
+		f[structField(ct, "Certificate")] = SliceVal{Obj: id, Off: KInt64(0), Len: n, Cap: n}
+		c.ret(st, TupleVal{StructVal{F: f}, IfaceVal{}})
+		return true
+	})
+	// x509.ParseCertificate on concrete DER: subject common name and DNS names from the real parser
+	reg("crypto/x509.ParseCertificate", func(e *Engine, st *State, c *callCtx) bool {
+		der := e.toSMTString(st, e.snapshotBytes(st, c.args[0].(SliceVal)))
+		if !der.K {
+			unsup("x509.ParseCertificate on symbolic input")
+		}
+		ct := c.fn.Signature.Results().At(0).Type().(*types.Pointer).Elem()
+		xc, err := x509.ParseCertificate([]byte(der.Str))
+		if err != nil {
+			c.ret(st, TupleVal{nilPtr, e.newError(st, KStr(err.Error()))})
+			return true
+		}
+		e.res.Assumptions["x509.ParseCertificate: only Subject.CommonName and DNSNames of the result are modelled"]++
+		v := zeroValue(ct).(StructVal)
+		f := append([]Value(nil), v.F...)
+		si := structField(ct, "Subject")
+		st2 := ct.Underlying().(*types.Struct).Field(si).Type()
+		subj := f[si].(StructVal)
+		sf := append([]Value(nil), subj.F...)
+		sf[structField(st2, "CommonName")] = KStr(xc.Subject.CommonName)
+		f[si] = StructVal{F: sf}
+		var names []Value
+		for _, d := range xc.DNSNames {
+			names = append(names, KStr(d))
+		}
+		if len(names) > 0 {
+			id := st.newObj(ArrayVal{E: names}, nil)
+			n := KInt64(int64(len(names)))
+			f[structField(ct, "DNSNames")] = SliceVal{Obj: id, Off: KInt64(0), Len: n, Cap: n}
+		}
+		c.ret(st, TupleVal{PtrVal{Obj: st.newObj(StructVal{F: f}, ct)}, IfaceVal{}})
+		return true
 	})
 }
